@@ -9,7 +9,15 @@ try:
     dst = os.path.join(tmp, "repo")
     os.makedirs(dst)
     subprocess.run(f"cd /repo && git ls-files -z gaftools docs | xargs -0 cp --parents -t {dst}", shell=True, check=True)
-    subprocess.run(f"cd {dst} && git init -q . && git apply {d}/patch.diff", shell=True, check=True)
+    subprocess.run(["git", "init", "-q", "."], cwd=dst, check=True, capture_output=True)
+    sys.path.insert(0, "/verif")
+    from gv.patching import apply_patch
+
+    ok, msg = apply_patch(dst, os.path.join(os.path.abspath(d), "patch.diff"), os.environ.get("GV_PATCH_BASE"))
+    if not ok:
+        sys.exit("patch does not apply: " + msg)
+    if msg:
+        print("(" + msg + " onto the current tree)")
     for pr in props:
         env = dict(os.environ, GV_EVIDENCE_DIR=os.path.join(tmp, "ev"))
         q = subprocess.run(["/venv/bin/python", "-m", "gv", "check", pr, "--repo", dst], cwd="/verif", capture_output=True, text=True, env=env)
